@@ -20,6 +20,7 @@ func init() {
 			c.run("C16-R5", "WHO-CALLS: junk tolerance forced by tunnel / config", c16R5)
 			c.run("C16-R7", "GUARD-DOM: the relay frames lines for a Windows side exactly when that side is Windows and the tunnel is not in use", c16R7)
 			c.run("C16-R8", "WHO-CALLS: protocol-side decisions use the environment predicate, not the host-OS predicate", c16WinPredicates)
+			c.run("C16-S1", "shared with C03-R4: what is queued for the line readers is the buffer just read into (re-allocated after the hand-over) or a fresh copy", c03R4)
 			c.run("C16-R9", "LITERAL: the status stripper skips exactly the length of each marker it found", c16StripLens)
 			c.run("C16-R6", "PAIR: the Windows reader's duplicate flag is consumed by the first kept letter", c16R6)
 		})
